@@ -11,6 +11,7 @@ theorem body_Program_handleSignals : Tea.Gen.fact_body_Program_handleSignals = T
 theorem body_Program_handleResize : Tea.Gen.fact_body_Program_handleResize = Tea.Doc.fact_body_Program_handleResize := rfl
 theorem body_Program_listenForResize : Tea.Gen.fact_body_Program_listenForResize = Tea.Doc.fact_body_Program_listenForResize := rfl
 theorem body_Program_checkResize : Tea.Gen.fact_body_Program_checkResize = Tea.Doc.fact_body_Program_checkResize := rfl
+theorem body_Program_initInput : Tea.Gen.fact_body_Program_initInput = Tea.Doc.fact_body_Program_initInput := rfl
 theorem el_case_windowSizeMsg : Tea.Gen.fact_el_case_windowSizeMsg = Tea.Doc.fact_el_case_windowSizeMsg := rfl
 theorem order_Program_ReleaseTerminal : Tea.Gen.fact_order_Program_ReleaseTerminal = Tea.Doc.fact_order_Program_ReleaseTerminal := rfl
 theorem order_Program_RestoreTerminal : Tea.Gen.fact_order_Program_RestoreTerminal = Tea.Doc.fact_order_Program_RestoreTerminal := rfl
